@@ -854,3 +854,53 @@ func keys(m map[string]string) []string {
 	sort.Strings(k)
 	return k
 }
+
+// ruleAdvanceByOne: outside initialisation and Reset, currentSlot is only ever replaced by NextSlot()
+// of the same window (the current interval moves forward one interval at a time, so no interval
+// that may hold buffered rows is skipped).
+func (a *A) ruleAdvanceByOne(W *types.Named, initFns map[string]string) {
+	curF := a.FieldOf(W, "currentSlot")
+	next := a.methodOf(W, "NextSlot")
+	if next == nil {
+		a.anchorFail("%s.NextSlot not found", W.Obj().Name())
+	}
+	n := 0
+	for _, fn := range a.ModFuncs {
+		for _, st := range storesToField(fn, curF) {
+			if isFreshObject(st.Addr.(*ssa.FieldAddr)) {
+				continue
+			}
+			n++
+			construct := fmt.Sprintf("%s.currentSlot<-%s", W.Obj().Name(), fname(fn))
+			ok := true
+			var badLeaf string
+			for _, l := range phiLeaves(st.Val) {
+				if c, isCall := l.(*ssa.Call); isCall && c.Call.StaticCallee() == next {
+					continue
+				}
+				if k, isK := l.(*ssa.Const); isK && k.Value == nil {
+					continue // cleared
+				}
+				ok = false
+				badLeaf = TermOf(l, nil).String()
+			}
+			if ok {
+				a.Ok(construct, st.Pos(), "the current interval is replaced by NextSlot()")
+				continue
+			}
+			if why, isInit := initFns[fname(fn)]; isInit {
+				// initialisation: allowed only while the window is not initialised
+				initF := a.FieldOf(W, "initialized")
+				guarded := guardedByValue(st.Block(), func(v ssa.Value) bool {
+					return isFieldOf(TermOf(v, nil), qual(W), "initialized") && fieldVarOf(derefLoad(v)) == initF
+				}, false)
+				a.Check(guarded || strings.HasSuffix(fname(fn), ").Reset"), construct, st.Pos(), "first interval: "+why, "currentSlot is set to "+badLeaf+" in "+fname(fn)+" outside the not-yet-initialised branch")
+				continue
+			}
+			a.Bad(construct, st.Pos(), "currentSlot is set to %s, not to NextSlot(): the current interval can jump over intervals that still hold buffered rows, which are then never emitted", badLeaf)
+		}
+	}
+	if n == 0 {
+		a.Und(W.Obj().Name()+".currentSlot", token.NoPos, "no store to currentSlot found")
+	}
+}
